@@ -1,6 +1,7 @@
 import Driver.Conv
 import Driver.PtrEng
 import Driver.RangeEng
+import Driver.IndexEng
 /-! `rlbox_model_driver`: one operation per line on stdin, one result per line on stdout. -/
 open Driver
 
@@ -13,6 +14,9 @@ def stepLine (line : String) : String :=
   | some r => r
   | none =>
   match RangeEng.step t with
+  | some r => r
+  | none =>
+  match IndexEng.step t with
   | some r => r
   | none => "badop"
 
